@@ -613,6 +613,54 @@ fn builder_leg(depth: usize) -> Value {
             }
         }
     }
+    // nested directories whose names repeat the strip prefix: t/f1, t/t/f2, t/t/t/f3, t/tt, t/t/tt2.
+    // The prefix is removed once (the longest listed one), however the rest of the path begins.
+    {
+        let _ = std::fs::remove_dir_all("t");
+        std::fs::create_dir_all("t/t/t").unwrap();
+        for (f, c) in [("t/f1", 1), ("t/t/f2", 2), ("t/t/t/f3", 3), ("t/tt", 4), ("t/t/tt2", 5)] {
+            std::fs::write(f, content(c)).unwrap();
+        }
+        let strip_lists = [s(&["t/"]), s(&["t"]), s(&["t/t/"]), s(&["t/", "t/t/"]), s(&["t/t/", "t/"]), s(&["t/t"]), s(&["t/t/t/"]), s(&["t/", "t/t/", "t/t/t/"]), s(&["t/tt"])];
+        for strips in &strip_lists {
+            for roots in [s(&["t"]), s(&["t/t"]), s(&["t/t/t", "t/f1"])] {
+                n += 1;
+                let reference = fswalk(&roots, Some(strips), None);
+                let query = json!({"nested-tree": ["t/f1", "t/t/f2", "t/t/t/f3", "t/tt", "t/t/tt2"], "paths": roots, "strip": strips});
+                match run_impl(&roots, Some(strips), None) {
+                    Err((l, m)) => mismatches.push(json!({"key": format!("panic:{l}"), "query": query, "what": m})),
+                    Ok(imp) => {
+                        let same = match (&imp, &reference) {
+                            (Expect::Error(_), Expect::Error(_)) => true,
+                            (Expect::Map(a), Expect::Map(b)) => a == b,
+                            (_, Expect::MapOrError(_)) => true,
+                            _ => false,
+                        };
+                        if let Expect::Map(m) = &reference {
+                            entries += m.len();
+                        }
+                        if !same {
+                            mismatches.push(json!({"key": "wrong-key:strip-prefix-repeated-in-path", "query": query, "implementation": format!("{imp:?}"), "reference": format!("{reference:?}")}));
+                        }
+                    }
+                }
+            }
+            for path in ["t/f1", "t/t/f2", "t/t/t/f3", "t/tt", "t/t/tt2"] {
+                n += 1;
+                let st: Vec<&str> = strips.iter().map(|x| x.as_str()).collect();
+                let query = json!({"record_artifact": path, "strip": strips});
+                match guard(|| in_toto::runlib::record_artifact(path, &[in_toto::crypto::HashAlgorithm::Sha256], Some(&st))) {
+                    Guard::Panicked(l, m) => mismatches.push(json!({"key": format!("panic:{l}"), "query": query, "what": m})),
+                    Guard::Done(Err(_)) => mismatches.push(json!({"key": "record_artifact-differs", "query": query, "implementation": "error", "reference": strip(path, Some(strips))})),
+                    Guard::Done(Ok((p, _))) => {
+                        if p.value() != strip(path, Some(strips)) {
+                            mismatches.push(json!({"key": "wrong-key:strip-prefix-repeated-in-path", "query": query, "implementation": p.value(), "reference": strip(path, Some(strips))}));
+                        }
+                    }
+                }
+            }
+        }
+    }
     let _ = std::env::set_current_dir("/");
     mismatches.truncate(12);
     json!({"queries": n, "mismatches": mismatches, "reference_maps": n, "reference_errors": 0, "reference_entries": entries})
@@ -806,7 +854,7 @@ pub fn run(tier: Tier) -> i32 {
     }
     crate::envprobe::judge(&mut acc, "C18:", &mut c.extra);
     c.acc = acc;
-    c.rule = "state = directory tree reached by appending one node under an existing directory (mkdir; write with size in {0,1,1023,1024,1025,4097,8193,70001} for single-node trees and {1,1025} otherwise; symlink absolute/relative to any existing node or to an ancestor incl. the root), names assigned in the fixed order a, ab, .h, 'e é', deduplicated on the sorted listing; per tree a menu of queries (whole tree x 7 strip lists x 10 algorithm lists (incl. lists that mix a supported with an unsupported or mis-cased name: an error, never a silently shortened digest set); non-normalised roots; each top-level node as root; two roots in both orders; overlapping and repeated roots) through record_artifacts in a private cwd, compared with an independent walker; plus in_toto_run with 7 commands on a subset, and with 6 argument variants (materials and products from different paths, other algorithms, strip prefixes, one side empty) x 4 commands; plus every history of depth <= 4 (5) over {add_material(f), add_product(f), write(f, c)} on 2 files x 3 contents through LinkMetadataBuilder, calculate_hashes over 8 sizes x 6 reader shapes (short reads, interrupted) x 4 algorithm lists; and record_artifact on one file x 8 sizes x 4 algorithm lists x 8 strip lists x 4 spellings. non-trivial = trees with a symlink, and run cases".into();
+    c.rule = "state = directory tree reached by appending one node under an existing directory (mkdir; write with size in {0,1,1023,1024,1025,4097,8193,70001} for single-node trees and {1,1025} otherwise; symlink absolute/relative to any existing node or to an ancestor incl. the root), names assigned in the fixed order a, ab, .h, 'e é', deduplicated on the sorted listing; per tree a menu of queries (whole tree x 7 strip lists x 10 algorithm lists (incl. lists that mix a supported with an unsupported or mis-cased name: an error, never a silently shortened digest set); non-normalised roots; each top-level node as root; two roots in both orders; overlapping and repeated roots) through record_artifacts in a private cwd, compared with an independent walker; plus in_toto_run with 7 commands on a subset, and with 6 argument variants (materials and products from different paths, other algorithms, strip prefixes, one side empty) x 4 commands; plus every history of depth <= 4 (5) over {add_material(f), add_product(f), write(f, c)} on 2 files x 3 contents through LinkMetadataBuilder, calculate_hashes over 8 sizes x 6 reader shapes (short reads, interrupted) x 4 algorithm lists; and record_artifact on one file x 8 sizes x 4 algorithm lists x 8 strip lists x 4 spellings; a nested tree whose directory names repeat the strip prefix (t/f1, t/t/f2, t/t/t/f3, t/tt, t/t/tt2) x 9 strip lists x 3 root lists through record_artifacts and file by file through record_artifact. non-trivial = trees with a symlink, and run cases".into();
     c.bound_completed = format!("all trees with <= {max_nodes} nodes ({} trees{})", trees.len(), if capped { ", capped" } else { "" });
     c.assume("real filesystem (tmpfs); no dangling symlinks, devices, permission errors or non-UTF-8 names");
     c.assume("a file reached twice through the same key is one entry; two different files with one key must be an error");
